@@ -20,9 +20,13 @@ def main():
     limit = int(os.environ.get("VERIF_WATCHDOG_S", "780" if a.tier == "quick" else "14000"))
 
     def _late(*_):
-        sys.stdout.write(f"UNDECIDED property={a.prop} reason=watchdog: the check did not finish within {limit}s\n")
-        sys.stdout.flush()
-        os._exit(2)
+        try:  # (stdout may be a pipe whose reader has gone: the exit must happen regardless)
+            sys.stdout.write(f"UNDECIDED property={a.prop} reason=watchdog: the check did not finish within {limit}s\n")
+            sys.stdout.flush()
+        except BaseException:  # noqa
+            pass
+        finally:
+            os._exit(2)
     signal.signal(signal.SIGALRM, _late)
     signal.alarm(limit)
     # second line of defence: a timer THREAD (a signal handler only runs when the main thread gets back to the interpreter; a main thread stuck in
